@@ -8,7 +8,8 @@
 //!        a fresh arena; the harness steers the reservation so that base % 65536 == page * 4096
 //!        (best effort; the real residue is reported, the optional third word is for the model)
 //! alloc|zalloc <bytes> <align>   -> ok beg=<off> len=<n> mod=<addr % align> o/c sum=<digest> | err o/c
-//! grow <blk> <newSize>           -> ok beg=<off> len=<n> moved=<0|1> o/c sum=<digest> | err o/c
+//! grow|zgrow <blk> <newSize>     -> ok beg=<off> len=<n> moved=<0|1> o/c sum=<digest> | err o/c
+//!        `Allocator::grow` | `Allocator::grow_zeroed` (the new tail must read as zero)
 //! shrink <blk> <newSize>         -> ok beg=<off> len=<n> moved=0 o/c            (tail block only)
 //! mark                           -> o/c          remember the offset as mark number k (0-based)
 //! reset <markNo>                 -> o/c          only to a mark at or below the offset
@@ -216,7 +217,7 @@ fn generate(args: &[String]) -> i32 {
                     let (beg, blen, align, _, _) = g.blocks[b];
                     let extra = pick_size(&mut rng, &g, if beg + blen == g.off { 1 } else { align });
                     let new = if rng.chance(1, 8) { blen } else if beg + blen == g.off { blen + extra } else { extra.max(blen) };
-                    out.line(&format!("grow {b} {new}"));
+                    out.line(&format!("{} {b} {new}", if rng.chance(1, 3) { "zgrow" } else { "grow" }));
                     if beg + blen == g.off {
                         if g.off + (new - blen) <= g.cap {
                             g.off += new - blen;
@@ -646,7 +647,8 @@ fn step(w: &[&str], h: &mut H) -> Ans {
                 }
             }
         }
-        ["grow", blk, new] => {
+        [op @ ("grow" | "zgrow"), blk, new] => {
+            let zeroed = *op == "zgrow";
             let (Ok(blk), Ok(new)) = (blk.parse::<usize>(), new.parse::<usize>()) else { return bad() };
             let Some(b) = h.blocks.get(blk).cloned() else { return bad() };
             if !b.live || new < b.len || new > MAX_BYTES {
@@ -656,7 +658,9 @@ fn step(w: &[&str], h: &mut H) -> Ans {
             let (off0, commit0) = (h.off(), h.commit());
             let tail = b.beg + b.len == off0;
             let old_ptr = NonNull::new(h.bptr(b.beg)).unwrap();
-            let r = unsafe { h.arena().grow(old_ptr, old_l, new_l) };
+            let r = unsafe {
+                if zeroed { h.arena().grow_zeroed(old_ptr, old_l, new_l) } else { h.arena().grow(old_ptr, old_l, new_l) }
+            };
             match r {
                 Ok(p) => {
                     let ptr = p.as_ptr() as *mut u8 as usize;
@@ -685,6 +689,10 @@ fn step(w: &[&str], h: &mut H) -> Ans {
                         let bp = h.bptr(beg);
                         if let Some(j) = (0..b.len).find(|&j| unsafe { bp.add(j).read_volatile() } != pat(b.seed, j)) {
                             oracle = Some(format!("grow of block {blk} lost its contents at byte {j} (moved={})", moved as u8));
+                        } else if zeroed
+                            && let Some(j) = (b.len..len).find(|&j| unsafe { bp.add(j).read_volatile() } != 0)
+                        {
+                            oracle = Some(format!("grow_zeroed of block {blk}: byte {j} of the new tail is not zero (moved={})", moved as u8));
                         }
                     }
                     let sum = digest_at(h.base as *const u8, beg, len);
